@@ -2,5 +2,7 @@ SPECIFICATION Spec
 CONSTANTS
   MaxLen = 5
   Parent = "ep"
-INVARIANTS ProbedIffEnabled Emit
+  Restart = TRUE
+  Health = FALSE
+INVARIANTS ProbedIffEnabled ViewFollows Emit
 CHECK_DEADLOCK FALSE
